@@ -291,7 +291,14 @@ func (i *interpreter) fillFull(t types.Type, d int, sentinel iface) value {
 			if _, isPtr := u.Elem().Underlying().(*types.Pointer); isPtr && d-1 <= 0 {
 				return i.zero(t) // no nil elements in slices of pointers
 			}
-			return []value{i.fillFull(u.Elem(), d-1, sentinel), i.fillFull(u.Elem(), d-1, sentinel)}
+			a, b := i.fillFull(u.Elem(), d-1, sentinel), i.fillFull(u.Elem(), d-1, sentinel)
+			if inner, ok := u.Elem().Underlying().(*types.Slice); ok {
+				// rows of different widths: the second row is one element wider than the first
+				if bs, ok := b.([]value); ok && len(bs) > 0 {
+					b = append(append([]value{}, bs...), i.fillFull(inner.Elem(), d-2, sentinel))
+				}
+			}
+			return []value{a, b}
 		}
 		return []value{i.fillFull(u.Elem(), d-1, sentinel)}
 	case *types.Array:
